@@ -267,6 +267,8 @@ def resolve(pre: str, table) -> str:
                 b = "".join(chr(c) for c in payload).encode("utf-8", "surrogatepass")
             elif tag == "2":
                 b = b"".join(int(c).to_bytes(8, "little", signed=True) for c in payload)
+            elif tag == "3":
+                b = bytes(payload)      # the bytes themselves (a bool array: the mask of a nullable pandas array)
             else:
                 raise ValueError(tag)
             return _digest(b)
